@@ -7,6 +7,7 @@ import ast
 from ..cfg import cfg_of
 from ..model import AnalysisError, call_name, calls_in, dotted, norm, walk_no_nested
 from .. import rules
+from .. import conds as cnd
 
 META = {
     "explanation": "Dominance and write-set rules on CollectionEventCapability._on_s02f33/_on_s02f35 (every mutation of the report / "
@@ -210,7 +211,7 @@ def check_integrity(ctx):
     q = f.qualname
     cfg = cfg_of(f.node)
     # delete-all
-    clears = {norm(c.func.value) for n in cfg.real_nodes() for c in n.calls if isinstance(c.func, ast.Attribute) and c.func.attr == "clear" and any(("not function.DATA", True) == (norm(t), v) for t, v in cfg.dominating_conditions(n))}
+    clears = {norm(c.func.value) for n in cfg.real_nodes() for c in n.calls if isinstance(c.func, ast.Attribute) and c.func.attr == "clear" and cnd.holds(cfg, n, "not function.DATA")}
     ok = clears == set(TABLES)
     ctx.ob("C12.R1", q, ok, "an empty S2F33 clears both the links and the reports" if ok else f"delete-all clears {sorted(clears)}: " + ("links to deleted reports remain" if "self._registered_collection_events" not in clears else "reports remain"), key="delete-all", where=f.where)
     # delete-one: removal from links
@@ -225,7 +226,7 @@ def check_integrity(ctx):
         ctx.ob("C12.R1", q, in_while, "a deleted report is removed from a link until no occurrence is left" if in_while else
                f"`{norm(c)}` removes one occurrence only; S2F35 can link the same report twice in one request (the pre-check looks at existing links only), so a dangling reference survives the delete and the next S6F15 / event for that CEID fails with S6F0",
                key="remove-all-occurrences", where=f.where)
-        under_delete = any(norm(t) in ("not report.VID", "len(report.VID) == 0") and v for t, v in cfg.dominating_conditions(n))
+        under_delete = cnd.holds(cfg, n, "not report.VID")
         ctx.ob("C12.R1", q, under_delete, "links are touched only in the delete form (empty VID list)" if under_delete else "report removal from links is not restricted to the delete form", key="delete-form", where=f.where)
         over_all = any(isinstance(x.ast, ast.For) and "self._registered_collection_events" in norm(x.ast.iter) for x in cfg.nodes if x.kind == "iter" and cfg.path_exists(rules.branch_marker(x, "true"), n, avoid=[x]))
         ctx.ob("C12.R1", q, over_all, "every link is visited" if over_all else "the removal does not visit every registered link", key="all-links", where=f.where)
@@ -234,20 +235,20 @@ def check_integrity(ctx):
         ctx.ob("C12.R1", q, snap, "the link table is iterated over a snapshot while links are deleted" if snap else "links are deleted while the link table itself is being iterated (RuntimeError: dictionary changed size)", key="snapshot", where=f.where)
     dels = [n for n in cfg.real_nodes() if isinstance(n.ast, ast.Delete)]
     link_del = [n for n in dels if norm(n.ast.targets[0]).startswith("self._registered_collection_events[")]
-    ok = any(any(norm(t).startswith("not self._registered_collection_events[") and norm(t).endswith(".reports") and v for t, v in cfg.dominating_conditions(n)) for n in link_del)
+    ok = any(any(t.startswith("self._registered_collection_events[") and t.endswith(".reports") and not pol for t, pol in cnd.facts(cfg, n)) for n in link_del)
     ctx.ob("C12.R1", q, ok, "a link whose last report was deleted is deleted as well" if ok else "links left without reports are not deleted", key="empty-link", where=f.where)
     rep_del = [n for n in dels if norm(n.ast.targets[0]) == "self._registered_reports[report.RPTID]"]
-    ok = len(rep_del) == 1 and any(norm(t) in ("not report.VID",) and v for t, v in cfg.dominating_conditions(rep_del[0]))
+    ok = len(rep_del) == 1 and cnd.holds(cfg, rep_del[0], "not report.VID")
     ctx.ob("C12.R1", q, ok, "the report itself is deleted in the delete form" if ok else "the delete form does not delete the report entry", key="report-deleted", where=f.where)
     stores = [n for n in cfg.real_nodes() if isinstance(n.ast, ast.Assign) and norm(n.ast.targets[0]) == "self._registered_reports[report.RPTID]"]
-    ok = len(stores) == 1 and norm(stores[0].ast.value) == "CollectionEventReport(report.RPTID, report.VID)" and any(norm(t) == "not report.VID" and not v for t, v in cfg.dominating_conditions(stores[0]))
+    ok = len(stores) == 1 and norm(stores[0].ast.value) == "CollectionEventReport(report.RPTID, report.VID)" and cnd.holds(cfg, stores[0], "report.VID")
     ctx.ob("C12.R1", q, ok, "the define form stores the report with its id and variable list" if ok else "the define form does not store CollectionEventReport(RPTID, VID)", key="define", where=f.where)
     # S2F35
     g = repo.method("CollectionEventCapability", "_on_s02f35", inherited=False)
     ctx.touch(g)
     gcfg = cfg_of(g.node)
     dels = [n for n in gcfg.real_nodes() if isinstance(n.ast, ast.Delete) and norm(n.ast.targets[0]) == "self._registered_collection_events[event.CEID.get()]"]
-    ok = len(dels) == 1 and any(norm(t) == "not event.RPTID" and v for t, v in gcfg.dominating_conditions(dels[0]))
+    ok = len(dels) == 1 and cnd.holds(gcfg, dels[0], "not event.RPTID")
     ctx.ob("C12.R1", g.qualname, ok, "S2F35 with an empty report list deletes the link" if ok else "the unlink form does not delete the link", key="unlink", where=g.where)
     new = [n for n in gcfg.real_nodes() if isinstance(n.ast, ast.Assign) and norm(n.ast.targets[0]) == "self._registered_collection_events[event.CEID.get()]"]
     ok = len(new) == 1 and rules.expand(g.node, new[0].ast.value).replace(" ", "") == "CollectionEventLink(self._collection_events[event.CEID.get()],event.RPTID.get())"
@@ -282,6 +283,7 @@ def check_build(ctx):
     if ok:
         L = loops[0]
         lv = L.ast.target.id
+        vname = None
         apps = [n for n in cfg.real_nodes() if any(c == "reports.append" for c in n.call_names())]
         counts = cfg.loop_iteration_counts(L, lambda n: n in apps, no_exc=True)
         ok = bool(counts) and all(v == (1, 1) for v in counts.values())
@@ -291,12 +293,15 @@ def check_build(ctx):
         ctx.ob("C12.R2", b.qualname, ok, "the report table is indexed only with ids taken from the link (exists by C12.R1)" if ok else "the report table is indexed with something else than the linked id", key="index", where=b.where)
         for n in apps:
             c = next(c for c in n.calls if call_name(c) == "reports.append")
-            ok = isinstance(c.args[0], ast.Dict) and {k.value: norm(v) for k, v in zip(c.args[0].keys, c.args[0].values)} == {"RPTID": lv, "V": "variables"}
+            body = {k.value: v for k, v in zip(c.args[0].keys, c.args[0].values)} if isinstance(c.args[0], ast.Dict) and all(isinstance(k, ast.Constant) for k in c.args[0].keys) else {}
+            ok = set(body) == {"RPTID", "V"} and norm(body["RPTID"]) == lv and isinstance(body["V"], ast.Name)
+            if ok:
+                vname = body["V"].id
             ctx.ob("C12.P2", b.qualname, ok, "each report carries its RPTID and its variable values" if ok else f"`{norm(c)}`", key="report-body", where=b.where)
         vloops = [n for n in cfg.nodes if n.kind == "iter" and norm(n.ast.iter).endswith(".vars")]
-        ok = len(vloops) == 1
+        ok = len(vloops) == 1 and vname is not None
         if ok:
-            va = [n for n in cfg.real_nodes() if any(c == "variables.append" for c in n.call_names())]
+            va = [n for n in cfg.real_nodes() if any(c == f"{vname}.append" for c in n.call_names())]
             cts = cfg.loop_iteration_counts(vloops[0], lambda n: n in va, no_exc=True)
             ok = bool(cts) and all(v[1] == 1 for v in cts.values())
         ctx.ob("C12.P2", b.qualname, ok, "variables are read in the report's order, at most one value per variable" if ok else "variable values are not collected one per variable in order", key="vars", where=b.where)
@@ -307,8 +312,8 @@ def check_build(ctx):
         builds = [n for n in cfg.real_nodes() if any(c == "self._build_collection_event" for c in n.call_names())]
         ok = len(builds) == 1
         if ok:
-            conds = [norm(t) for t, v in cfg.dominating_conditions(builds[0]) if v]
-            ok = any("in self._registered_collection_events" in c and ".enabled" in c for c in conds)
+            conds = [t for t, pol in cnd.facts(cfg, builds[0]) if pol]
+            ok = any(" in self._registered_collection_events" in c for c in conds) and any(c.endswith(".enabled") for c in conds)
         ctx.ob("C12.P2", f.qualname, ok, "reports are built only for a registered and enabled link" if ok else "S6F15 builds reports without testing that the event is linked and enabled", key="guard", where=f.where)
         rets = [n for n in cfg.real_nodes() if isinstance(n.ast, ast.Return)]
         ok = len(rets) == 1 and norm(rets[0].ast.value) == "self.stream_function(6, 16)({'DATAID': 1, 'CEID': ceid, 'RPT': reports})"
@@ -322,8 +327,8 @@ def check_build(ctx):
     sends = [n for n in icfg.real_nodes() if any(c in ("self.send_and_waitfor_response", "self.send_stream_function") for c in n.call_names())]
     ok = len(builds) == 1 and len(sends) == 1
     if ok:
-        conds = [norm(tt) for tt, v in icfg.dominating_conditions(builds[0]) if v]
-        ok = any("in self._registered_collection_events" in c and ".enabled" in c for c in conds) and icfg.dominates(builds[0], sends[0])
+        conds = [tt for tt, pol in cnd.facts(icfg, builds[0]) if pol]
+        ok = any(" in self._registered_collection_events" in c for c in conds) and any(c.endswith(".enabled") for c in conds) and icfg.dominates(builds[0], sends[0])
         loops = [n for n in icfg.nodes if n.kind == "iter" and norm(n.ast.iter) == t.node.args.args[1].arg]
         ok = ok and len(loops) == 1
         if ok:
@@ -340,9 +345,9 @@ def check_build(ctx):
     writes = [n for n in scfg.real_nodes() if isinstance(n.ast, ast.Assign) and norm(n.ast.targets[0]).endswith(".enabled")]
     ok = len(writes) == 2 and all(norm(w.ast.value) == p_ceed for w in writes)
     if ok:
-        all_w = [w for w in writes if any(norm(t) == f"not {p_ids}" and v for t, v in scfg.dominating_conditions(w))]
+        all_w = [w for w in writes if cnd.holds(scfg, w, f"not {p_ids}")]
         one_w = [w for w in writes if w not in all_w]
-        ok = len(all_w) == 1 and len(one_w) == 1 and any("in self._registered_collection_events" in norm(t) and v for t, v in scfg.dominating_conditions(one_w[0]))
+        ok = len(all_w) == 1 and len(one_w) == 1 and cnd.holds(scfg, one_w[0], p_ids) and any(" in self._registered_collection_events" in t and pol for t, pol in cnd.facts(scfg, one_w[0]))
     ctx.ob("C12.P2", s.qualname, ok, "an empty CEID list enables/disables every link; otherwise exactly the named, linked events" if ok else "_set_ce_state does not set `enabled = CEED` for all links (empty list) / the named linked events", where=s.where)
 
 
